@@ -10,6 +10,7 @@ CONSTANTS
  MolIdx <- MCMolTwo
  MsgKinds <- MCMsgAll
  MaxMsgs = 3
+ WithEnv = FALSE
  HDev = "errGate"
 INVARIANT OutputIgnoresLog
 CHECK_DEADLOCK FALSE
